@@ -8,7 +8,6 @@ subprocess.Popen of harness/probe.py), is_complete() polling, _complete() -> Res
 and the rows are read back with ResultsAggregator.load_node_results(...).get_results().
 Only the scheduling loop (JobQueue) is replaced by the small loop in run_async_jobs.
 """
-import hashlib
 import json
 import logging
 import os
@@ -18,10 +17,6 @@ from pathlib import Path
 PROBE = str(Path(__file__).resolve().parent / "probe.py")
 PYTHON = "/venv/bin/python"
 PROBE_CMD = f"{PYTHON} {PROBE}"
-
-
-def probe_key(name):
-    return hashlib.sha1(name.encode("utf-8", "surrogateescape")).hexdigest()
 
 
 class Launch:
@@ -79,9 +74,10 @@ class Launch:
         """name -> the command string handed to AsyncCliCommand (generate_command's real output)"""
         return {j.name: j._cli_cmd for j in self.async_jobs}
 
-    def run_async_jobs(self, parallel=12, timeout=120):
-        """run() every job, at most `parallel` at a time, poll is_complete() until all are done."""
-        pending = list(self.async_jobs)
+    def run_async_jobs(self, parallel=12, timeout=120, skip=()):
+        """run() every job (except the names in skip), at most `parallel` at a time, poll is_complete()
+        until all are done."""
+        pending = [j for j in self.async_jobs if j.name not in skip]
         running = []
         t0 = time.time()
         while pending or running:
